@@ -14,9 +14,21 @@ LEVEL = "other"
 LEAVES, SPECIAL = c06.LEAVES, c06.SPECIAL
 
 
+def _nested(tier):
+    X, Y, Z, D0 = ("leaf", "X"), ("leaf", "Y"), ("leaf", "Z"), ("leaf", "0")
+    K = ("gt", ("ref", "a"), ("lit", "$k1"))
+    progs = [("join", ("chain", X, D0), Z, None), ("join", Z, ("chain", D0, X), None), ("join", ("chain", X, Y), Z, None),
+             ("join", ("chain", ("sel", X, K), D0), Z, None), ("sel", ("join", ("chain", X, D0), Z, None), K),
+             ("chain", ("chain", X, D0), Y), ("join", ("chain", D0, D0), Z, None), ("dedup", ("join", ("chain", X, D0), Z, None)),
+             ("join", ("chain", X, D0), ("leaf", "I"), None), ("join", ("sel", ("chain", X, D0), K), Z, ("plit", False))]
+    n = 2 if tier == "quick" else 3
+    return [{"eng": "sq", "prog": p, "params": ({"$k1": [None, None]} if "$k1" in repr(p) else {}), "cons": [], "n": n, "labels": ["nested"]}
+            for p in progs]
+
+
 def shapes(tier, seed):
     out = []
-    for sh in c06.shapes(tier, seed):
+    for sh in c06.shapes(tier, seed) + _nested(tier):
         for ex in (False, True):
             for decl in ("loose", "zero") if not ex else ("loose",):
                 s = dict(sh)
